@@ -426,6 +426,7 @@ def build(p):
   D = 'native/C13.py'
   p.native('get_pseudo_random_state', D, 'get')
   p.native('UniformGetClientSampler', D, 'get')
+  p.native('UniformGetClientSampler.__init__', D, 'restart')
   p.native('UniformShuffledClientSampler', D, 'shuffled')
   v_prs(p)
   v_get_sampler(p)
